@@ -122,6 +122,17 @@ def gen_config(rng):
                     execs.append({en: d})
             exp['executions'] = execs
             exp.update(gen_level(rng, nxt()))
+        if x > 0 and rng.random() < 0.3 and 'executions' in exp:
+            # YAML anchors / aliases / merge keys (docs/config.md): the loaded document then holds the SAME object
+            # in several places -- an executions list, or one execution's details map, shared with an earlier experiment
+            other = rng.choice([e for e in cfg['experiments'].values()])
+            if rng.random() < 0.5:
+                exp['executions'] = other['executions']
+            else:
+                shared = [e for e in other['executions'] if isinstance(e, dict)]
+                if shared:
+                    exp['executions'] = list(exp['executions']) + [rng.choice(shared)]
+            exp['suites'] = rng.sample(suites_all, rng.randint(1, len(suites_all)))
         cfg['experiments']['X%d' % x] = exp
     if rng.random() < 0.5:
         cfg['runs'] = gen_level(rng, nxt(), with_vars=False)
@@ -387,6 +398,35 @@ def canon(k):
     return json.dumps(k, sort_keys=True)
 
 
+def find_aliases(cfg):
+    """paths of containers that are one and the same object (what YAML aliases load as); JSON replays lose
+    object identity, so it is recorded next to the configuration"""
+    seen, out = {}, []
+
+    def walk(o, path):
+        if isinstance(o, (dict, list)):
+            if id(o) in seen:
+                out.append([seen[id(o)], path])
+                return
+            seen[id(o)] = path
+            for k, v in (o.items() if isinstance(o, dict) else enumerate(o)):
+                walk(v, path + [k])
+    walk(cfg, [])
+    return out
+
+
+def relink(cfg, aliases):
+    def get(path):
+        o = cfg
+        for k in path:
+            o = o[k]
+        return o
+    for first, second in aliases:
+        parent = get(second[:-1])
+        parent[second[-1]] = get(first)
+    return cfg
+
+
 # ------------------------------------------------------------------ the check
 def check_cases(ck, cases):
     ops, metas = [], []
@@ -397,6 +437,10 @@ def check_cases(ck, cases):
     answers = ck.model(ops)
     for (cfg, sel, codes), ans in zip(metas, answers):
         inp = {'config': cfg, 'selection': sel}
+        al = find_aliases(cfg)
+        if al:
+            inp['aliases'] = al
+            ck.count('config-with-aliased-objects')
         try:
             runs = impl_runs(cfg, sel)
             crash = None
@@ -632,6 +676,10 @@ def run(ck):
     ck.assumptions = ['variable values are YAML ints and strings (floats, booleans, dates rely on Python cross-type '
                       'equality and are outside the generator); malformed filters belong to C10; plain values of '
                       'invocations/iterations/warmup are ints here (digit strings are covered by C02)']
+    corpus = os.path.join(os.path.dirname(os.path.dirname(os.path.abspath(__file__))), 'corpus', 'C01')
+    for f in sorted(os.listdir(corpus)) if os.path.isdir(corpus) else []:
+        ck.count('corpus')
+        replay(ck, json.load(open(os.path.join(corpus, f))))      # minimised past failures run first
     cases = []
     for _ in range(700 if quick else 30000):
         cfg = gen_config(ck.rng)
@@ -658,4 +706,4 @@ def replay(ck, data):
             ck.oracle_fail('filter_keeps_exactly_the_documented_runs', inp, {'reported': got, 'expected': want},
                            {'kind': 'run-filter', 'what': 'bench' if 'bench' in inp else 'tag'})
         return
-    check_cases(ck, [(inp['config'], inp['selection'])])
+    check_cases(ck, [(relink(inp['config'], inp.get('aliases', [])), inp['selection'])])
